@@ -447,7 +447,7 @@ impl Property for C10 {
     }
 
     fn cases(tier: Tier) -> u32 {
-        tier.pick(24_000, 600_000)
+        tier.pick(24_000, 3_000_000)
     }
 
     fn run(case: &Case, ctx: &mut Ctx) {
